@@ -140,6 +140,10 @@ func (env *ExecEnv) expand(word ast.Word, mode ExpMode) (fields []*field, err er
 				if err != nil {
 					return nil, err
 				}
+				if len(env.Args) == 1 && env.isAt(w.Value) {
+					// "$@" generates zero fields
+					continue
+				}
 				fields[len(fields)-1].merge(word[0])
 				fields = append(fields, word[1:]...)
 			}
@@ -167,6 +171,16 @@ func (env *ExecEnv) expand(word ast.Word, mode ExpMode) (fields []*field, err er
 		}
 	}
 	return
+}
+
+// isAt reports whether the word consists only of $@.
+func (env *ExecEnv) isAt(word ast.Word) bool {
+	for _, w := range word {
+		if pe, ok := w.(*ast.ParamExp); !ok || pe.Name.Value != "@" || pe.Op != "" {
+			return false
+		}
+	}
+	return len(word) != 0
 }
 
 // expandTilde performs tilde expansion.
